@@ -20,10 +20,10 @@ RULE = (
     "is non-trivial when it has a slack row or an offset row or non-zero weights; distinct = distinct (weights, row kinds, trajectory digest)"
 )
 ASSUMPTIONS = [
-    "exact comparison uses == on every entry (signed zeros of structural zeros are not distinguished); weights |w| <= 8 and data magnitudes within 2^+-40, so no overflow/underflow occurs",
+    "exact comparison uses == on every entry (signed zeros of structural zeros are not distinguished); weights |w| <= 100 and data magnitudes within 2^+-40, so no overflow/underflow of a double occurs",
 ]
 TIERS = {"quick": {"worlds": 2500, "wall": 150, "limit": 60.0}, "thorough": {"worlds": 60000, "wall": 1700, "limit": 120.0}}
-GATES = ("nontrivial", "worlds.shuffled_coo_order", "worlds.int_dtype", "points.run_iterates", "points.probes", "scaling.Custom", "scaling.Nominal", "scaling.GradJac", "scaling.KKT", "rows.offset", "rows.slack")
+GATES = ("nontrivial", "worlds.int_bounds", "worlds.dup_coo", "worlds.narrow_weight_dtype", "worlds.start_none_or_scalar", "worlds.shuffled_coo_order", "worlds.int_dtype", "points.run_iterates", "points.probes", "scaling.Custom", "scaling.Nominal", "scaling.GradJac", "scaling.KKT", "rows.offset", "rows.slack")
 
 
 def generate(rng, seed, index, tier):
@@ -45,14 +45,25 @@ def generate(rng, seed, index, tier):
         spec["int_dtype"] = True
     if rng.random() < 0.3:
         spec["shuffle"] = True
-    spec["policy"] = str(rng.choice(["fresh", "cached", "memo"]))
+    spec["policy"] = str(rng.choice(["fresh", "cached", "memo", "retain"], p=[0.3, 0.25, 0.25, 0.2]))
+    if rng.random() < 0.2:
+        spec["dup"] = True  # COO results with repeated positions (entries are sums of contributions)
+    if fam in ("qp", "nlp") and rng.random() < 0.12:
+        x0 = gen.integer_bounds(rng, spec, x0)  # bound arrays of integer dtype
     y0 = np.round(rng.normal(size=spec["m"]), 3)
+    x0, y0, sform = gen.start_forms(rng, spec, x0, y0, p=0.1)
     kw = {}
     st = str(rng.choice(["NoScaling", "Custom", "Nominal", "GradJac", "KKT"], p=[0.1, 0.45, 0.15, 0.15, 0.15]))
     if st != "NoScaling":
         kw["scaling_type"] = st
         if st == "Custom":
-            kw["scaling"] = {"var": rng.integers(-8, 9, size=spec["n"]).tolist(), "cons": rng.integers(-8, 9, size=spec["m"]).tolist(), "obj": int(rng.integers(-6, 7))}
+            wmax = 8
+            wdt = "int64"
+            if rng.random() < 0.3:
+                # the weight arrays may carry any integer dtype; large (still harmless: data * 2^(3*45) is far from overflow) weights
+                wdt = str(rng.choice(["int8", "int16", "int32"]))
+                wmax = int(rng.choice([8, 45, 100 if wdt == "int8" else 45]))
+            kw["scaling"] = {"var": rng.integers(-wmax, wmax + 1, size=spec["n"]).tolist(), "cons": rng.integers(-wmax, wmax + 1, size=spec["m"]).tolist(), "obj": int(rng.integers(-wmax, wmax + 1)), "dtype": wdt}
         else:
             kw["scaling_primal"] = "x0"
             kw["scaling_dual"] = "y0"
@@ -64,7 +75,7 @@ def generate(rng, seed, index, tier):
     probes = []
     for _ in range(4):
         probes.append({"x": np.round(rng.normal(size=spec["n"] + spec["m"]) * 3, 3).tolist(), "y": np.round(rng.normal(size=spec["m"]) * 2, 3).tolist()})
-    return gen.base_world(seed, ID, index, spec, x0, y0, kw, case={"probes": probes})
+    return gen.base_world(seed, ID, index, spec, x0, y0, kw, case={"probes": probes}, start_form=sform)
 
 
 def _eq(a, b):
@@ -113,13 +124,21 @@ def case(world):
         bump("worlds.int_dtype")
     if world["problem"].get("shuffle") and world["problem"].get("fmt") == "coo":
         bump("worlds.shuffled_coo_order")
+    if world["problem"].get("int_bounds"):
+        bump("worlds.int_bounds")
+    if world["problem"].get("dup") and world["problem"].get("fmt") == "coo":
+        bump("worlds.dup_coo")
+    if (world["params"].get("scaling") or {}).get("dtype", "int64") != "int64":
+        bump("worlds.narrow_weight_dtype")
+    if world.get("start_form"):
+        bump("worlds.start_none_or_scalar")
     if rt.ns:
         bump("rows.slack")
     if np.any(rt.off != 0):
         bump("rows.offset")
     sub = None
     # bounds of the internal problem
-    if tp.var_lb.tobytes() != rt.lb.tobytes() or tp.var_ub.tobytes() != rt.ub.tobytes():
+    if not (_eq(tp.var_lb, rt.lb) and _eq(tp.var_ub, rt.ub)):
         viol.append(V(ID, "bounds", "internal variable/slack bounds differ from the scaled user bounds", sub, {}))
     if tp.num_vars != rt.N or tp.num_cons != um.m:
         viol.append(V(ID, "shape", "internal problem has %d variables / %d rows, expected %d / %d (rows with l != u get a slack, rows with l == u an offset)" % (tp.num_vars, tp.num_cons, rt.N, um.m), sub, {}))
